@@ -23,6 +23,7 @@ fn program_variation(rng: &mut Rng) -> Variation {
     v.trailer = rng.chance(1, 4);
     v.legacy_pal = rng.chance(1, 3);
     v.cel_order = rng.chance(1, 2);
+    v.split = rng.chance(1, 3);
     v
 }
 
